@@ -6,11 +6,9 @@
 // ASSUME: worklists whose initial work arrives through push_initial (LocalQueue with a global queue, StableIterator, BulkSynchronous, OwnerComputes) get it exactly once, first, as ForEachExecutor::initThread does (kind 4 = push_initial(range of 2), kind 5 = push_initial(empty range))
 // ASSUME: BulkSynchronous: no push after a pop that returned empty (its isEmpty flag is sticky by design; with one worker and no abort-retries the executor never pushes after an empty pop; the combination with abort-retries is listed outside the bounds in DESIGN.md section 4 item 14)
 // ASSUME: GFIFO/GLIFO (Wrapper over gdeque) have no range push: Wrapper::push(Iter,Iter) calls container.insert(end,b,e), which galois::gdeque does not provide (it does not compile when instantiated), so only push(v)/pop are exercised there
-// ASSUME: FIFO/LIFO (Wrapper over std::deque): only push(v)/pop are exercised and only in the thorough tier with at most 2 pushes per history (1.5-1.9 M variables, 2.4-2.9 GB, 30-40 s; a third push exceeds 6 GB); the range push (std::deque::insert(end,b,e) -> _M_range_insert_aux) exceeds the caps after translation (symex 64 s, then > 5 GB in propositional reduction for ONE range push of 2 items) and is not encoded
-// OB: ob_wl_simple tier=quick solver=cadical unwind=20 timeout=180 params=4 bounds="GFIFO<int>, GLIFO<int> (Wrapper over gdeque), one after the other in each query, without the per-thread-storage environment (not used by them): 4 kind sequences of 5..6 ops from {push(v), pop} (table SEQ_I with range pushes split into single pushes); values symbolic in 0..3"
-// OB: ob_wl_bulksync tier=quick solver=cadical unwind=32 timeout=120 cbmc="--max-field-sensitivity-array-size 600" params=5 bounds="BulkSynchronous<ChunkFIFO<2>,int,true> and BulkSynchronous<PerSocketChunkLIFO<2>,int,true>, 1 thread, the real CountingBarrier(1): 5 kind sequences (table SEQ_BS) of up to 7 ops: push_initial(range of 2 or 0) first, then {push(v), push(range of 2), pop} with no push after an empty pop" desc="work conservation, one worker, across round flips"
-// OB: ob_wl_stddeque tier=thorough solver=cadical unwind=20 timeout=600 mem_gb=8 params=2,2 bounds="FIFO<int> / LIFO<int> (Wrapper over std::deque): 2 kind sequences with 2 pushes and 3 pops each ({push,push,pop,pop,pop}, {push,pop,pop,push,pop}); 30-40 s and 2.4-2.9 GB per query, three pushes exceed 6 GB" desc="pop returns only pending items, each once; an empty pop means nothing is pending; after draining nothing comes back"
-// OB: ob_wl_composite tier=quick solver=cadical unwind=32 timeout=120 cbmc="--max-field-sensitivity-array-size 600" params=4 bounds="LocalQueue<NoGlobalQueue,GFIFO> (single pushes), LocalQueue<ChunkFIFO<2>,ChunkLIFO<2>>, OwnerComputes<DummyIndexer,ChunkLIFO<2>>, StableIterator<false|true,PerSocketChunkFIFO<2>,int*>, one after the other in each query; 1 thread; 4 kind sequences (table SEQ_I): push_initial(range of 2 or 0) first, then {push(v), push(range of 2), pop}" desc="work conservation, one worker: initial range and pushed items all come back exactly once; an empty pop means nothing is pending"
+// OB: ob_wl_simple tier=quick solver=cadical unwind=20 timeout=600 params=4 bounds="GFIFO<int>, GLIFO<int> (Wrapper over gdeque; range pushes split into single pushes), FIFO<int>, LIFO<int> (Wrapper over std::deque; push_initial + push(v) + push(range of 2) + pop), one after the other in each query, without the per-thread-storage environment (not used by them): 4 kind sequences of 5..6 ops (table SEQ_I); values symbolic in 0..3"
+// OB: ob_wl_bulksync tier=quick solver=cadical unwind=32 timeout=600 cbmc="--max-field-sensitivity-array-size 600" params=5 bounds="BulkSynchronous<ChunkFIFO<2>,int,true> and BulkSynchronous<PerSocketChunkLIFO<2>,int,true>, 1 thread, the real CountingBarrier(1): 5 kind sequences (table SEQ_BS) of up to 7 ops: push_initial(range of 2 or 0) first, then {push(v), push(range of 2), pop} with no push after an empty pop" desc="work conservation, one worker, across round flips"
+// OB: ob_wl_composite tier=quick solver=cadical unwind=32 timeout=600 cbmc="--max-field-sensitivity-array-size 600" params=4 bounds="LocalQueue<NoGlobalQueue,GFIFO> (single pushes), LocalQueue<ChunkFIFO<2>,ChunkLIFO<2>>, OwnerComputes<DummyIndexer,ChunkLIFO<2>>, StableIterator<false|true,PerSocketChunkFIFO<2>,int*>, one after the other in each query; 1 thread; 4 kind sequences (table SEQ_I): push_initial(range of 2 or 0) first, then {push(v), push(range of 2), pop}" desc="work conservation, one worker: initial range and pushed items all come back exactly once; an empty pop means nothing is pending"
 #include "C01_wl_common.h"
 #include "galois/worklists/Chunk.h"
 #include "galois/worklists/Simple.h"
@@ -123,14 +121,8 @@ OB(wl_simple) {
   const unsigned char* s = c01::SEQ_I[vf_param(0) < 4 ? vf_param(0) : 0];
   c01::run_row<GFIFO<int>, c01::OpsI<GFIFO<int>, false>>(s);
   c01::run_row<GLIFO<int>, c01::OpsI<GLIFO<int>, false>>(s);
-}
-OB(wl_stddeque) {
-  static const unsigned char SEQ_D[][c01::SEQLEN] = {{0, 0, 2, 2, 2, 9}, {0, 2, 2, 0, 2, 9}};
-  galois::substrate::ThreadPool::my_box.topo.tid = 0;
-  if (vf_param(0) == 0)
-    c01::run_row<FIFO<int>, c01::OpsI<FIFO<int>, false>>(SEQ_D[vf_param(1) & 1]);
-  else
-    c01::run_row<LIFO<int>, c01::OpsI<LIFO<int>, false>>(SEQ_D[vf_param(1) & 1]);
+  c01::run_row<FIFO<int>, c01::OpsI<FIFO<int>>>(s);
+  c01::run_row<LIFO<int>, c01::OpsI<LIFO<int>>>(s);
 }
 OB(wl_composite) {
   typedef LocalQueue<NoGlobalQueue<>, GFIFO<int>, int> LQ0;
